@@ -13,6 +13,16 @@ import (
 
 // C07: backends vs. a sequential map-with-expiry reference model.
 
+// ncVal is a value of a type that Go's == cannot compare (comparing two of them through interfaces panics).
+type ncVal []string
+
+func norm(v interface{}) interface{} {
+	if n, ok := v.(ncVal); ok {
+		return "nc:" + n[0]
+	}
+	return v
+}
+
 type mEntry struct {
 	val   interface{}
 	class string // "fresh", "expired", "never"
@@ -36,7 +46,7 @@ func init() {
 		Rule: "seeded random operation sequences (Write/Read/Delete/ExpireAll/DeleteAll/Len/Walk/Load/Store with ctx options none,+1h,-1s,-2h,ttl0,SkipRead) over a hostile key alphabet " +
 			"on ShardedMap, SyncMap, ShardedMapOf[string] x TimeToLive{default,1h,Unlimited} x jitter{default,-1,1.0}; every result is compared with a reference map-with-expiry; " +
 			"a case is one sequence; distinct_nontrivial counts distinct (backend,config,op-kind/state-class trace hash) of sequences with >=5 ops that exercised at least one expired or deleted entry",
-		Required: []string{"op.Read", "op.Write", "op.Delete", "op.ExpireAll", "op.DeleteAll", "op.Walk", "op.Len", "op.Load", "op.Store", "read.expired_with_value", "read.skipread"},
+		Required: []string{"op.Read", "op.Write", "op.Delete", "op.ExpireAll", "op.DeleteAll", "op.Walk", "op.Len", "op.Load", "op.Store", "read.expired_with_value", "read.skipread", "write.noncomparable"},
 		Assumptions: []string{
 			"wall clock is not stepped during a run; entry states use TTL margins of >=1s so scheduling delays cannot flip fresh/expired",
 			"janitor does not fire (DeleteExpiredJobInterval left at 1h)",
@@ -65,7 +75,8 @@ func runC07(b *Batch) {
 		if b.Skip(i) {
 			continue
 		}
-		c07Case(b, i)
+		i := i
+		b.Guard(i, "C07", func() { c07Case(b, i) })
 		collectGarbage(i)
 	}
 }
@@ -168,6 +179,11 @@ func c07Case(b *Batch, idx int) {
 				}
 			case 1:
 				v = ""
+			case 2, 3:
+				if be.AllowsNil() { // interface-typed backends store any value, also one that == cannot compare
+					v = ncVal{v.(string)}
+					b.R.Count("write.noncomparable", 1)
+				}
 			}
 			err := be.Write(ctx, buf, v)
 			scramble()
@@ -203,7 +219,7 @@ func c07Case(b *Batch, idx int) {
 					fail("Read", st, errClass(err), fmt.Sprintf("absent key returned (%v,%v)", v, err))
 				}
 			case e.class == "fresh" || e.class == "never":
-				if err != nil || v != e.val {
+				if err != nil || norm(v) != norm(e.val) {
 					fail("Read", st, errClass(err), fmt.Sprintf("got (%v,%v), want (%v,nil)", v, err, e.val))
 				}
 			default: // expired
@@ -212,7 +228,7 @@ func c07Case(b *Batch, idx int) {
 					fail("Read", st, errClass(err), fmt.Sprintf("expired entry returned (%v,%v), want ErrExpired with item", v, err))
 				} else {
 					b.R.Count("read.expired_with_value", 1)
-					if sv != e.val {
+					if norm(sv) != norm(e.val) {
 						fail("ReadStaleValue", st, "wrongvalue", fmt.Sprintf("stale value %v, want %v", sv, e.val))
 					}
 					if v != nil {
@@ -307,7 +323,7 @@ func c07Case(b *Batch, idx int) {
 			steps = append(steps, seqStep{Op: "Load", Key: keyLabel(k), Got: fmt.Sprint(v, ok)})
 			e := model[string(k)]
 			if e != nil && (e.class == "fresh" || e.class == "never") {
-				if !ok || v != e.val {
+				if !ok || norm(v) != norm(e.val) {
 					fail("Load", st, "mismatch", fmt.Sprintf("Load=(%v,%v), want (%v,true)", v, ok, e.val))
 				}
 			} else if ok || v != nil {
@@ -391,7 +407,7 @@ func c07CompareWalk(be Backend, model map[string]*mEntry, fail func(op, state, g
 		e := model[g.k]
 		if e == nil {
 			fail("Walk", "-", "keyset", fmt.Sprintf("Walk visited key %x unknown to the model", g.k))
-		} else if e.val != g.v {
+		} else if norm(e.val) != norm(g.v) {
 			fail("Walk", "-", "value", fmt.Sprintf("Walk value %v for key %x, model %v", g.v, g.k, e.val))
 		}
 	}
